@@ -61,9 +61,12 @@ class CacheNotIsolated(Exception):
 
 class WalkSys:
     def __init__(self, *, universe="H5", values=("S", "L"), prune=False, use_cache=False, max_mut=1, seed=0, init="all", batch_mut=False,
-                 mut_values=("S", "L"), root_via="traverse"):
+                 mut_values=("S", "L"), root_via="traverse", regen=False):
         self.kw = dict(universe=universe, values=list(values), prune=prune, use_cache=use_cache, max_mut=max_mut, seed=seed, init=init,
                        batch_mut=batch_mut, mut_values=list(mut_values), root_via=root_via)
+        if regen:
+            self.kw["regen"] = True
+        self.regen = regen and prune  # the trie being walked and modified was re-opened with the counts regenerate_ref_count() reports
         self.root_via = root_via
         self.labels = alphabet.Labels(seed)
         self.keys = self.labels.keys(universe)
@@ -147,6 +150,8 @@ class WalkSys:
         if ev[0] == "mut":
             m = dict(model)
             try:
+                if self.regen:
+                    t = self._reopen(t)
                 if len(ev[1]) == 1:
                     apply_op(t, m, ev[1][0])
                 else:
@@ -186,6 +191,11 @@ class WalkSys:
         if snapshot(t) != trie:
             viols.append(V("C09", "walk_changed_trie", "a walk step modified the trie"))
         return Step(post, model, viols)
+
+    @staticmethod
+    def _reopen(t):
+        from trie import HexaryTrie
+        return HexaryTrie(dict(t.db), bytes(bytearray(t.root_hash)), prune=True, ref_count=t.regenerate_ref_count())
 
     def visit(self, live, p):
         """one step of the walk protocol stated in the property; -> None or (check, msg, detail)"""
@@ -286,6 +296,8 @@ class WalkSys:
     def live_new(self, init_index):
         snap, model = self.initial()[init_index]
         t = restore(snap[0], logdict=False)
+        if self.regen:
+            t = self._reopen(t)
         return dict(t=t, fog=HexaryTrieFog(), cache=TrieFrontierCache() if self.use_cache else None, met=set(), model=dict(model),
                     stable=snap[4], ever=snap[5], nmut=0, reset=False)
 
